@@ -7,6 +7,7 @@ import struct
 from hypothesis import strategies as st
 
 from vlib import cidfonts as C
+from vlib import fonts as FS
 from vlib import pdfwrite as W
 from vlib import runner as RUN
 from vlib.runner import Outcome, ShardResult, enum_search, hyp_search
@@ -624,7 +625,14 @@ def _build_doc(font_model, enc_value, enc_stream, subtype, rnd, strings, size, x
         else:
             ops.append(W.ser(s) + b" Tj")
     ops.append(b"ET")
-    return W.page_doc(b"\n".join(ops), fonts={"F1": f}, extra=extra)
+    fonts = {"F1": f}
+    if rnd.random() < 0.5:
+        # a second composite font that is never shown shares the descendant CIDFont object and has its own
+        # encoding and ToUnicode map; it is instantiated first and must not influence F1
+        decoy_tu, _ = FS.tounicode_cmap({c: "#" for c in range(0, 96)}, codelen=2)
+        extra[25] = W.Stream({}, decoy_tu)
+        fonts = {"F0": C.type0(W.N("Identity-H"), W.R(20), W.R(25)), "F1": f}
+    return W.page_doc(b"\n".join(ops), fonts=fonts, extra=extra)
 
 
 def _widths(rnd, font, cids, classes):
